@@ -16,9 +16,12 @@ use kcl_ezpz::*;
 fn signature(sys: &System, x: &[f64]) -> String {
     let mut s = String::new();
     for r in &sys.reqs {
-        let (res, d1) = vh::residual(r.constraint(), x);
-        let (rows, d2) = vh::jacobian_rows(r.constraint(), x);
-        s.push_str(&format!("{}{}{}|", d1 as u8, d2 as u8, rows.iter().map(|r| r.len().to_string()).collect::<Vec<_>>().join(",")));
+        // only legitimate branch choices enter the signature (which tangency a pair of circles is
+        // nearer to); the implementation's own degenerate flags and row shapes do NOT: a request
+        // wrongly treated as degenerate near a healthy plant must not be excluded as a "branch switch"
+        let (res, _d1) = vh::residual(r.constraint(), x);
+        let (rows, _d2) = vh::jacobian_rows(r.constraint(), x);
+        s.push('|');
         // sign pattern of the radius partials of tangent constraints (branch choice)
         if let Constraint::CircleTangentToCircle(..) = r.constraint() {
             for e in &rows[0] {
@@ -63,14 +66,20 @@ fn main() {
         }
         // 2. no degenerate flag / branch switch between the plant, the guess and points of the ball
         let s0 = signature(&sys, &xs);
-        if s0.contains("1") && s0.split('|').any(|p| p.starts_with("1") || p.chars().nth(1) == Some('1')) {
+        // (no exclusion on the implementation's own degenerate flags: a request wrongly flagged
+        // degenerate at a healthy plant must not hide; the independent guard-band test below decides)
+        if false {
             excl_degenerate += 1;
-            continue;
         }
         let mut same = signature(&sys, &x0) == s0;
+        let guard_at = |y: &[f64]| sys.reqs.iter().any(|r| {
+            let g = ezpz_verif_harness::geom::geom_err(r.constraint(), y, sys.scale);
+            g.degenerate || ezpz_verif_harness::geom::in_guard_band(r.constraint(), y)
+        });
+        same &= !guard_at(&x0);
         for _ in 0..6 {
             let y: Vec<f64> = xs.iter().map(|v| v + 2.0 * pert * sys.scale * rng.sym()).collect();
-            same &= signature(&sys, &y) == s0;
+            same &= signature(&sys, &y) == s0 && !guard_at(&y);
         }
         // point-on-arc plants must be comfortably inside the sweep, and geometry not tiny
         for r in &sys.reqs {
